@@ -53,7 +53,16 @@ Theorem c07_epsilon_upto_1024 :
 Proof. exact fi_epsilon. Qed.
 
 (* Full statement for map size 2048 would be  2 * 2048 * maximum_error <= 7 * N ; the code does
-   not give it (sample capped at 1024 of 1537 counters): *)
+   not give it (sample capped at 1024 of 1537 counters).  The witness is a run of the ABSTRACT model
+   (the purge may look at any admissible sample).  Replayed on the crate (tools/families/freq.py
+   gen_eps2048, part of every C07 check): with the witness's own items 0..1536 the crate's table order
+   puts only about a third of the heavy counters among the first 1024, the median is 1 and
+   maximum_error = 1; with 1537 items chosen for their hashes (the 514 heavy ones first in table
+   order) the crate takes exactly the witness's sample: maximum_error = 100 > 3.5/2048 * 52423 = 89.6,
+   in debug and release.  The property text claims epsilon only up to map size 1024, so this is not a
+   violation of C07; it does contradict the crate's module documentation ("(UB - LB) <= W * epsilon,
+   epsilon = 3.5/M ... applies to arbitrary inputs"), recorded as known_findings.d/C07-freq-epsilon-2048.json.
+   The oracle checks what c07_epsilon_from_2048_partial proves for these sizes (maximum_error <= N/512). *)
 Theorem c07_epsilon_2048_refuted :
   exists h s, runs h s /\ uniform 11 h /\ 7 * weight h < 2 * 2 ^ 11 * fi_max_error s.
 Proof. exact eps_2048_refuted. Qed.
@@ -109,4 +118,23 @@ Proof.
   { apply (exec_runs _ (HNew 3) (fi_new_lg 3)); [apply R_new|reflexivity]. }
   repeat split; try exact R; try reflexivity.
   apply (R_merge _ _ _ _ [(3%Z, 4); (6%Z, 2)] [] _ [] R R); [apply Permutation_refl|reflexivity].
+Qed.
+
+(* non-vacuity of the frequent_items theorems: after one more update (item 3, weight 10) the
+   sketch reports item 3 with NoFalsePositives (lower bound 14 > maximum_error 5; true count 19)
+   and items 3 and 6 with NoFalseNegatives (upper bounds 19 and 7 > 5; true counts 19 and 7);
+   item 1 (true count 5, not above the threshold 5) is in neither; with threshold 7 only item 3 *)
+Example c07_frequent_example :
+  let h := HUpd (hist_updates (HNew 3) c07_example_script) 3 10 in
+  let s := mkFi 3 3 5 38 [(3%Z, 14); (6%Z, 2)] in
+  runs h s /\ truth h 3 = 19 /\ truth h 6 = 7 /\ truth h 1 = 5 /\
+  fi_frequent true s = [(3%Z, 19, 19, 14)] /\
+  fi_frequent false s = [(3%Z, 19, 19, 14); (6%Z, 7, 7, 2)] /\
+  fi_frequent_thr false 7 s = [(3%Z, 19, 19, 14)].
+Proof.
+  cbv zeta.
+  assert (R : runs (hist_updates (HNew 3) c07_example_script) (mkFi 3 3 5 28 [(3%Z, 4); (6%Z, 2)])).
+  { apply (exec_runs _ (HNew 3) (fi_new_lg 3)); [apply R_new|reflexivity]. }
+  split; [|repeat split; reflexivity].
+  apply (R_upd _ _ 3 10 [] _ [] R). reflexivity.
 Qed.
